@@ -60,11 +60,28 @@ static inline int32_t getHashAlg(ssl_t *ssl)
     }
 }
 
+/* The hash is known once the cipher suite has been negotiated. A client
+   only knows that after a ServerHello or HelloRetryRequest: until then
+   ssl->cipher may be a preset (the suite of the session or PSK it offers to
+   resume), which the server is free not to select. */
+static inline psBool_t hashNotNegotiatedYet(ssl_t *ssl)
+{
+    if (ssl->cipher == NULL || ssl->cipher->ident == SSL_NULL_WITH_NULL_NULL)
+    {
+        return PS_TRUE;
+    }
+    if (!MATRIX_IS_SERVER(ssl) && !NGTD_VER(ssl, v_tls_1_3_any))
+    {
+        return PS_TRUE;
+    }
+    return PS_FALSE;
+}
+
 int32_t tls13TranscriptHashInit(ssl_t *ssl)
 {
     int32_t alg;
 
-    if (ssl->cipher == NULL || ssl->cipher->ident == SSL_NULL_WITH_NULL_NULL)
+    if (hashNotNegotiatedYet(ssl))
     {
         /* When parsing ClientHello, the ciphersuite has not been negotiated
            yet, which means that do not know which hash we will end up using.
@@ -183,7 +200,7 @@ int32_t tls13TranscriptHashUpdate(ssl_t *ssl,
     }
 # endif /* USE_TLS_1_3_ONLY */
 
-    if (ssl->cipher == NULL || ssl->cipher->ident == SSL_NULL_WITH_NULL_NULL)
+    if (hashNotNegotiatedYet(ssl))
     {
         /* When parsing ClientHello, the ciphersuite has not been negotiated
            yet, which means that do not know which hash we will end up using.
